@@ -1,4 +1,5 @@
 (* C14 - No exported function panics or hangs, whatever the arguments. *)
+From B39 Require Import Proofs.Calls.
 From B39 Require Import Lib.Base Model.GenTypes Model.Model Model.State Gen.Body.
 From B39 Require Import Proofs.Sound Proofs.Stringer Proofs.History Proofs.Total.
 
@@ -28,6 +29,11 @@ Proof. exact seed_length. Qed.
 (* the model does have reachable-looking panic sites: they are excluded by the gates, not by totalising *)
 Example C14_panic_site_exists : fromEntropy (repeat x00 36) 27 2 = Panic "division by zero".
 Proof. vm_compute. reflexivity. Qed.
+
+(* the functions this property is about, and every package function they reach, call only what the model
+   accounts for (closed world of callees, computed on coq/Gen/Calls.v, regenerated from the source every run) *)
+Theorem C14_callees : all_calls_ok = true.
+Proof. exact all_calls_ok_holds. Qed.
 
 Print Assumptions C14_never_panics.
 Print Assumptions C14_seed.
